@@ -135,10 +135,15 @@ def build_value(ex, j, tid):
             vc = build_value(ex, vj, d["elem"])
             map_update(ex, m, ex.from_cells(kc, d["key"]), ex.from_cells(vc, d["elem"]))
         return [m]
-    if k in ("interface", "func", "chan"):
+    if k == "interface":
         if j is None:
             return [None]
-        return [("native-" + k, j)]
+        from .stdlib import GoError
+        return [Iface(j.get("iface", "native"), GoError("native value %s" % (j.get("val"),)))]
+    if k in ("func", "chan"):
+        if j is None:
+            return [None]
+        raise Unsupported("global of kind " + k)
     raise Unsupported("global of kind " + k)
 
 
